@@ -72,6 +72,13 @@ def _coef(rng, side, coef, scalar=None):
 
 
 def _vdesc(rng, palette="real"):
+    d = _vdesc0(rng, palette)
+    if rng.random() < 0.1:
+        d["lay"] = rng.choice(("F", "strided"))
+    return d
+
+
+def _vdesc0(rng, palette="real"):
     if palette == "ints":
         return {"d": "ints", "lo": -2, "hi": 2, "s": _seed(rng)}
     if palette == "zeros":
